@@ -89,6 +89,10 @@ def _build_ext(root, variant):
     cache = os.path.join(BUILD, "ext", "%s-%s" % (h, variant))
     marker = os.path.join(cache, "OK")
     if os.path.exists(marker):
+        try:
+            os.utime(cache)
+        except OSError:
+            pass
         return cache
     work = cache + ".work.%d" % os.getpid()
     shutil.rmtree(work, ignore_errors=True)
@@ -111,21 +115,37 @@ def _build_ext(root, variant):
         shutil.rmtree(work, ignore_errors=True)
         raise StageError("extension build failed (%s):\n%s" % (variant, tail))
     os.makedirs(os.path.dirname(cache), exist_ok=True)
-    shutil.rmtree(cache, ignore_errors=True)
-    os.makedirs(cache)
-    shutil.move(os.path.join(work, "lib", "aiokafka"), os.path.join(cache, "aiokafka"))
+    # publish atomically: concurrent first builds of the same sources must not see a half-moved tree
+    lib = os.path.join(work, "lib")
+    open(os.path.join(lib, "OK"), "w").close()
+    try:
+        if os.path.isdir(cache) and not os.path.exists(marker):
+            shutil.rmtree(cache, ignore_errors=True)     # leftover of an interrupted build
+        os.rename(lib, cache)
+    except OSError:
+        if not os.path.exists(marker):
+            shutil.rmtree(work, ignore_errors=True)
+            raise
     shutil.rmtree(work, ignore_errors=True)
-    open(marker, "w").close()
     return cache
 
 
+PRUNE_AGE = 6 * 3600      # never delete what a concurrent run (thorough tiers take < 1 h) may still import
+
+
 def _prune(d, keep):
+    import time
     try:
         ents = sorted((os.path.join(d, e) for e in os.listdir(d)), key=os.path.getmtime)
-    except FileNotFoundError:
+    except (FileNotFoundError, OSError):
         return
+    now = time.time()
     for e in ents[:-keep]:
-        shutil.rmtree(e, ignore_errors=True)
+        try:
+            if now - os.path.getmtime(e) > PRUNE_AGE:
+                shutil.rmtree(e, ignore_errors=True)
+        except OSError:
+            pass
 
 
 def stage(variant="plain"):
@@ -155,6 +175,9 @@ def stage(variant="plain"):
             shutil.copy2(os.path.join(sod, f), os.path.join(tmp, EXT_DIR, f))
     # the package metadata version lookup in aiokafka/__init__ does not need dist-info
     open(os.path.join(tmp, "OK"), "w").close()
+    if os.path.exists(marker):           # a concurrent run published the same tree meanwhile
+        shutil.rmtree(tmp, ignore_errors=True)
+        return dest
     shutil.rmtree(dest, ignore_errors=True)
     try:
         os.rename(tmp, dest)
